@@ -452,7 +452,12 @@ class Plane:
                 # contained in adjacent masks that may be present in the sliced
                 # amp and opd arrays.
                 mask = self.mask if self.mask.ndim < 3 else self.mask[n]
-                amp = self.amplitude if self.amplitude.size == 1 else self.amplitude[s] * mask[s]
+                if self.amplitude.size == 1:
+                    # a scalar amplitude is still confined to the mask, not just
+                    # to the mask's bounding box
+                    amp = self.amplitude if mask.size == 1 else self.amplitude * mask[s]
+                else:
+                    amp = self.amplitude[s] * mask[s]
                 opd = self.opd if self.opd.size == 1 else self.opd[s]
 
                 # construct complex phasor
